@@ -697,6 +697,9 @@ class HtpasswdFile(_CommonFile):
             to prevent ambiguity with the dictionary method.
             The old alias was removed in Passlib 1.8.
         """
+        # NOTE: encode with the file's encoding, exactly as check_password() does
+        if isinstance(password, str):
+            password = password.encode(self.encoding)
         hash = self.context.hash(password)
         return self.set_hash(user, hash)
 
